@@ -21,16 +21,19 @@ VARIABLES inMethods,    \* set of listed types with an entry in init_methods
           hasDefaultPrefixed, \* set of listed types with a method init_<TypeName> (matters only if prefix is custom)
           customPrefix, \* BOOLEAN
           overridden,   \* set of listed types whose prefixed method is overridden in a subclass
+          failing,      \* set of listed types whose prefixed method itself raises AttributeError (a bug in user code:
+                        \* it is defined, so it is the source; its exception reaches the caller, nothing falls back)
           listed,       \* the component_types tuple (a sequence of type ids, possibly with repeats)
           produced      \* result of the last iteration: sequence of <<type, source>>
 
-vars == <<inMethods, hasPrefixed, hasDefaultPrefixed, customPrefix, overridden, listed, produced>>
+vars == <<inMethods, hasPrefixed, hasDefaultPrefixed, customPrefix, overridden, failing, listed, produced>>
 T == 1..NTypes
 
 Init == /\ inMethods \in SUBSET T /\ hasPrefixed \in SUBSET T
         /\ customPrefix \in BOOLEAN
         /\ hasDefaultPrefixed \in (IF customPrefix THEN SUBSET T ELSE {{}})
         /\ overridden \in SUBSET hasPrefixed
+        /\ failing \in {{}} \cup {{t} : t \in hasPrefixed}
         /\ listed \in {[i \in 1..NTypes |-> i]} \cup {<<1, 1>>} \cup {<<>>}
         /\ produced = <<>>
 
@@ -39,14 +42,17 @@ Source(t) == IF t \in inMethods THEN "methods"
              ELSE IF t \in hasPrefixed THEN (IF t \in overridden THEN "override" ELSE "prefix")
              ELSE "default"
 
-Iterate == /\ produced' = [i \in 1..Len(listed) |-> <<listed[i], Source(listed[i])>>]
-           /\ UNCHANGED <<inMethods, hasPrefixed, hasDefaultPrefixed, customPrefix, overridden, listed>>
+Raises == \E i \in 1..Len(listed) : listed[i] \in failing /\ listed[i] \notin inMethods
+Iterate == /\ produced' = IF Raises THEN <<<<0, "AttributeError">>>>
+                          ELSE [i \in 1..Len(listed) |-> <<listed[i], Source(listed[i])>>]
+           /\ UNCHANGED <<inMethods, hasPrefixed, hasDefaultPrefixed, customPrefix, overridden, failing, listed>>
 Next == Iterate
 Spec == Init /\ [][Next]_vars
 
 \* declarative: one component per listed type, in order, built by the highest-priority source that exists
-OnePerListedInOrder == produced # <<>> => (Len(produced) = Len(listed) /\ \A i \in 1..Len(listed) : produced[i][1] = listed[i])
-PrototypePriority == \A i \in 1..Len(produced) :
+Failed == produced # <<>> /\ produced[1][2] = "AttributeError"
+OnePerListedInOrder == (produced # <<>> /\ ~Failed) => (Len(produced) = Len(listed) /\ \A i \in 1..Len(listed) : produced[i][1] = listed[i])
+PrototypePriority == Failed \/ \A i \in 1..Len(produced) :
     LET t == produced[i][1] s == produced[i][2] IN
     /\ (t \in inMethods <=> s = "methods")
     /\ (t \notin inMethods /\ t \in hasPrefixed) <=> s \in {"prefix", "override"}
